@@ -30,6 +30,9 @@ pub enum FailMode {
     /// The lane writes the first part of a well-formed response and then drops its channels: the runtime sees the
     /// end of the stream in the middle of a frame, which is a failure of the lane (not a lane that has merely ended).
     TornFrame,
+    /// Lane `map` only: the lane drops its request (input) channel and goes on producing events - an output-only
+    /// lane. The runtime notices at the next request it tries to pass to the lane.
+    CloseInput,
 }
 
 #[derive(Debug, Clone, Serialize, Deserialize, PartialEq, Eq)]
@@ -230,12 +233,26 @@ async fn fake_task(
     let mut store_enc = ValueStoreResponseEncoder::default();
     let mut map_writer: Option<FramedWrite<ByteWriter, MapLaneResponseEncoder>> = None;
     let mut map_ready = false;
+    // The request channel of the early map lane, where the fail plan can get at it.
+    let map_input: std::sync::Arc<std::sync::Mutex<Option<FramedRead<ByteReader, MapLaneRequestDecoder<i32, i32>>>>> = Default::default();
     if let Some((tx, rx)) = early_map {
         // A transient lane registered at start has no initialisation phase.
         map_writer = Some(FramedWrite::new(tx, MapLaneResponseEncoder::default()));
         map_ready = true;
         let framed = FramedRead::new(rx, MapLaneRequestDecoder::<i32, i32>::default());
-        readers.push(framed.map(|r| In::Map(r.map_err(|_| ()))).boxed());
+        *map_input.lock().unwrap() = Some(framed);
+        let cell = map_input.clone();
+        readers.push(
+            futures::stream::poll_fn(move |cx| {
+                let mut guard = cell.lock().unwrap();
+                match guard.as_mut() {
+                    Some(framed) => framed.poll_next_unpin(cx),
+                    None => std::task::Poll::Ready(None),
+                }
+            })
+            .map(|r| In::Map(r.map_err(|_| ())))
+            .boxed(),
+        );
     }
     let mut map_state: BTreeMap<i32, i32> = BTreeMap::new();
     let mut handled: u32 = 0;
@@ -363,6 +380,11 @@ async fn fake_task(
                 };
                 failed = Some(lane);
                 rec(&truth, TruthEv::LaneFailed { item: lane });
+                if lane == "map" && matches!(p.mode, FailMode::CloseInput) {
+                    // Only the input goes; the lane keeps its writer and keeps producing events.
+                    drop(map_input.lock().unwrap().take());
+                    continue;
+                }
                 if lane == "map" {
                     map_ready = false;
                     if let Some(w) = map_writer.take() {
@@ -404,7 +426,7 @@ async fn fake_task(
                             // The writer is dropped here: end of stream inside the frame.
                         }
                     }
-                    FailMode::DropIo => {
+                    FailMode::DropIo | FailMode::CloseInput => {
                         writers.remove(lane);
                         // The read half is owned by the stream; requests for the lane are ignored from now on.
                     }
